@@ -26,6 +26,7 @@ import (
 	"encoding/json"
 	"errors"
 	"fmt"
+	"strings"
 	"testing"
 
 	"github.com/titpetric/vuego"
@@ -81,12 +82,16 @@ var testFuncs = vuego.FuncMap{
 	},
 }
 
-// newEngine builds a fresh engine for an entry point; the file entry point serves the page, the
-// components and the slot components from an in-memory file system.
-func newEngine(tpl, entry string) vuego.Template {
-	if entry != "file" {
-		return vuego.New(vuego.WithFuncs(testFuncs))
-	}
+// entryPoints are the public doors a page is rendered through; every one must give the same
+// result. Inline doors get the page as text (components come from the file system), the others
+// read page.vuego.
+var entryPoints = []string{"", "file", "byte", "reader", "renderfile", "view", "assign", "vue", "fragment", "nodes"}
+
+func inlineEntry(entry string) bool { return entry == "" || entry == "byte" || entry == "reader" }
+
+// caseFiles is the in-memory file system of a case: the page, the components and extra files
+// (a layout) of the case.
+func caseFiles(tpl string, extra map[string]string) *memfs.FS {
 	files := map[string]string{"page.vuego": tpl, "comp.vuego": componentSource}
 	for name, src := range slotComponents {
 		files[name] = src
@@ -94,31 +99,94 @@ func newEngine(tpl, entry string) vuego.Template {
 	for name, src := range compFiles {
 		files[name] = src
 	}
-	return vuego.NewFS(memfs.FromMap(files), vuego.WithComponents(), vuego.WithFuncs(testFuncs))
+	for name, src := range extra {
+		files[name] = src
+	}
+	return memfs.FromMap(files)
+}
+
+// extraFiles is set by check() for the case being rendered (a layout file); renders of one test
+// process are sequential.
+var extraFiles map[string]string
+
+// newEngine builds a fresh engine; all doors but the plain RenderString one have the file system.
+func newEngine(tpl, entry string) vuego.Template {
+	if entry == "" && len(extraFiles) == 0 {
+		return vuego.New(vuego.WithFuncs(testFuncs))
+	}
+	return vuego.NewFS(caseFiles(tpl, extraFiles), vuego.WithComponents(), vuego.WithFuncs(testFuncs))
 }
 
 // pageOf returns the Template object the real call is made on.
 func pageOf(engine vuego.Template, entry string, data any) vuego.Template {
-	if entry == "file" {
-		return engine.Load("page.vuego").Fill(data)
+	switch entry {
+	case "", "byte", "reader", "renderfile":
+		return engine.New().Fill(data)
+	case "view":
+		return vuego.View(engine, "page.vuego", data)
+	case "assign":
+		t := engine.Load("page.vuego")
+		if m, ok := data.(map[string]any); ok {
+			for k, v := range m {
+				t = t.Assign(k, v)
+			}
+			return t
+		}
+		return t.Fill(data)
 	}
-	return engine.New().Fill(data)
+	return engine.Load("page.vuego").Fill(data)
 }
 
 func renderPage(page vuego.Template, tpl, entry string) (string, error) {
 	var b bytes.Buffer
 	var err error
-	if entry == "file" {
-		err = page.Render(context.Background(), &b)
-	} else {
-		err = page.RenderString(context.Background(), &b, tpl)
+	ctx := context.Background()
+	switch entry {
+	case "":
+		err = page.RenderString(ctx, &b, tpl)
+	case "byte":
+		err = page.RenderByte(ctx, &b, []byte(tpl))
+	case "reader":
+		err = page.RenderReader(ctx, &b, strings.NewReader(tpl))
+	case "renderfile":
+		err = page.RenderFile(ctx, &b, "page.vuego")
+	default:
+		err = page.Render(ctx, &b)
 	}
 	return b.String(), err
 }
 
-// render asks vuego for the output of tpl over data through one of two entry points, on a
-// fresh engine.
+// renderVue goes through the Vue type: Render, RenderFragment, and RenderNodes over the nodes a
+// Loader reads from the file.
+func renderVue(tpl string, data any, entry string) (string, error) {
+	fsys := caseFiles(tpl, extraFiles)
+	v := vuego.NewVue(fsys).Funcs(testFuncs)
+	for name := range compFiles {
+		base := strings.TrimSuffix(strings.TrimPrefix(name, "components/Comp"), ".vuego")
+		v.RegisterComponent("comp-"+strings.ToLower(base), name)
+	}
+	var b bytes.Buffer
+	var err error
+	switch entry {
+	case "vue":
+		err = v.Render(&b, "page.vuego", data)
+	case "fragment":
+		err = v.RenderFragment(&b, "page.vuego", data)
+	default:
+		nodes, lerr := vuego.NewLoader(fsys).LoadFragment("page.vuego")
+		if lerr != nil {
+			return "", lerr
+		}
+		err = v.RenderNodes(&b, nodes, data)
+	}
+	return b.String(), err
+}
+
+// render asks vuego for the output of tpl over data through one of its doors, on a fresh engine.
 func render(tpl string, data any, entry string) (string, error) {
+	if entry == "vue" || entry == "fragment" || entry == "nodes" {
+		return renderVue(tpl, data, entry)
+	}
 	return renderPage(pageOf(newEngine(tpl, entry), entry, data), tpl, entry)
 }
 
@@ -168,9 +236,17 @@ func check(c Case) error {
 	}
 	src := c.source()
 	entry := c.Entry
-	if hasInclude(c.Nodes) {
-		entry = "file" // includes need a file system
+	if hasInclude(c.Nodes) && entry == "" {
+		entry = "byte" // includes need a file system: the inline doors of an engine that has one
 	}
+	if c.Layout != "" && entry != "view" && entry != "assign" && entry != "renderfile" {
+		entry = "file" // layouts apply to pages loaded through the Template doors
+	}
+	if c.After != "" && !inlineEntry(entry) {
+		entry = "file" // the after-failure dimension knows the inline and the Load.Fill.Render doors
+	}
+	extraFiles = c.layoutFiles()
+	defer func() { extraFiles = nil }()
 	desc := func() string {
 		v, _ := json.Marshal(c.Vars)
 		l, _ := json.Marshal(c.Lists)
@@ -251,8 +327,9 @@ func classify(c Case) (bool, []string) {
 	add(st.probes > 0, "probe(v-show,:attr,:class)")
 	add(st.propCond, "cond-names-undefined-prop")
 	add(st.propInLoop && st.includes > 0, "undefined-prop-cond-in-loop-with-include")
-	add(c.Entry == "file", "entry=file")
-	add(c.Entry == "", "entry=string")
+	add(true, "entry="+map[bool]string{true: "string", false: c.Entry}[c.Entry == ""])
+	add(c.Layout != "", "chain-in-layout:"+c.Layout)
+	add(st.ctxs > 0, "chain-in-noscript/list/select/table")
 	add(st.depth >= 3, "depth>=3")
 	return st.maxMembers >= 2 || st.nonBool, sortedCopy(cls)
 }
@@ -276,7 +353,7 @@ func replay(kind string, raw json.RawMessage) error {
 		return run.Decode(raw, checkPre)
 	case "table", "value", "cache":
 		return run.Decode(raw, checkTruth)
-	default: // "shape", "slot", "scope", "comp", "after", "nest"
+	default: // "shape", "slot", "scope", "comp", "after", "place", "nest"
 		return run.Decode(raw, check)
 	}
 }
@@ -302,7 +379,7 @@ func TestProp(t *testing.T) {
 			rec.Excluded(fNamedZero)
 			continue
 		}
-		c := TruthCase{Val: v}
+		c := TruthCase{Val: v, Entry: entryPoints[i%len(entryPoints)]}
 		ex := excludedPositions(v, open)
 		if !run.Thorough() && v.S == "7" {
 			// quick tier: the third sample of every numeric kind runs the plain-name positions only
@@ -433,6 +510,23 @@ func TestProp(t *testing.T) {
 	})
 	if afailed == 0 {
 		rec.Exhaustive(fmt.Sprintf("after-failure: chain v-if / v-else-if / v-else + v-show / :attr / :class probes over ordered pairs of {!nok(a) && b, !nok(a) || b, !a && b, a, !b, undefined} x 4 assignments x {fresh engine, same engine, same Template object} x both entry points, each after a failing render of the same page over stale data (%d cases)", na))
+	}
+
+	// ---- chains handed to a layout slot, written into a layout file, and in other parsing contexts
+	npl, plfailed := 0, 0
+	enumPlace(func(c Case) bool {
+		npl++
+		if npl%shards != shard {
+			return true
+		}
+		nt, cls := classify(c)
+		if !run.Each(rec, "place", c, nt, cls, check) {
+			plfailed++
+		}
+		return plfailed < 5
+	})
+	if plfailed == 0 {
+		rec.Exhaustive(fmt.Sprintf("places: chain (0..2 v-else-if, optional v-else) x all assignments x {content of <template #side> handed by the page to its layout's named slot, written into the layout file, inside <noscript> / <ul> / <select> / <table><tbody> at top level and inside a div} x 2 separators, doors in turn (%d cases)", npl))
 	}
 
 	// ---- components written compactly with a <template> root, as include and as shorthand tag
